@@ -111,6 +111,12 @@ def run(ctx):
                       "and the constructor records refs[name] = ref under exactly `ref is not None`", floor=2)
     ctx.rule("R08.e", "_sync_refs re-resolves exactly the links one of whose dependencies matches one of the delivered events by (owner identity, name) -- decided by abstract "
                       "interpretation on every non-empty event subset of a two-parameter source with three links (exhaustive for that configuration)", floor=1)
+    ctx.rule("R08.j", "a parameter linked to an expression with an asynchronous step holds the result of the LATEST source state (shared with R10.g): a synchronously computed result resets the "
+                      "ownership token of a pending evaluation", floor=1)
+    ctx.rule("R08.i", "(shared with R10.c) in reactive.py every write of the cached result after a suspension point is guarded by `self._current_task is task`, and the task is registered before "
+                      "the first suspension: of two evaluations started in the same tick the older one cannot publish last", floor=2)
+    ctx.rule("R08.n", "update model (shared with R02.u): Parameters._update -- through which _sync_refs pushes every linked parameter a source event affects -- assigns each key once and never "
+                      "writes an accepted key back when a later one is rejected; a key given the object it already holds still reaches the setter", floor=1)
     ctx.rule("R08.f", "the update context manager relinks on exit: Parameters.update, interpreted abstractly on six call forms (keywords / dict / dict+keywords / pairs / pairs+keywords), "
                       "hands the restorer the stored reference of every given parameter that has a link or a pending asynchronous reference", floor=1)
     ctx.rule("R08.g", "param's own write-backs never end a link: every update()/_update() call made by the library on a parameter namespace (other than forwarding the caller's own arguments) "
@@ -340,6 +346,10 @@ def run(ctx):
         ctx.ok("R08.e", sr, sr.node, "%d/%d event sets: exactly the links with a matching dependency are re-resolved (a link on another owner with the same name is not)" % (n_cases, n_cases))
 
     update_restorer_refs(ctx, "R08.f")
+    from checks.c10 import rx_latest_wins
+    rx_latest_wins(ctx, "R08.j", "R08.i")
+    from checks import update_model
+    update_model.report(ctx, "C08", "R08.n")
 
     from checks.shared import flush_model
     flush_model(ctx, "R08.h")
